@@ -106,6 +106,7 @@ def tdefectsOfAtom : String → Option TDefects
   | "repaired" => some .repaired
   | "safefix" => some .safeFix
   | "safefix2" => some .safeFix2
+  | "safefix3" => some .safeFix3
   | _ => none
 
 def expectOfAtom : String → Option Expect
@@ -127,7 +128,7 @@ def locToSexp (l : Loc) : List Sexp := [Sexp.nat l.line, Sexp.nat l.col]
 /-- `(c03-check <asis|aswas|repaired> <env> <strict> <expect> <node>)` -/
 def handleCheck : List Sexp → Sexp
   | [.atom "c03-check", .atom d, e, strict, .atom ex, n] =>
-    match defectsOfAtom (if d == "safefix" || d == "safefix2" then "asis" else d), tdefectsOfAtom d, envOfSexp e, strict.asBool,
+    match defectsOfAtom (if d == "safefix" || d == "safefix2" || d == "safefix3" then "asis" else d), tdefectsOfAtom d, envOfSexp e, strict.asBool,
         expectOfAtom ex, Node.ofSexp n with
     | some (dn, _), some dt, some e, some strict, some ex, some n =>
       match check (cfgOfEnv dn dt e strict ex) n with
@@ -144,13 +145,21 @@ def handleRef : List Sexp → Sexp
   | [.atom "c03-ref", e, n] =>
     match envOfSexp e, Node.ofSexp n with
     | some e, some n =>
-      let cfg := cfgOfEnv .asIs .repaired e true .none
+      -- the documented rule set, except that `filter`/`map` keep the static slice type the code reports:
+      -- that deviation is judged by comparing dynamic and static type (keys `…:filter-static-slice`,
+      -- `…:map-static-slice`), and judging the expressions that *use* such results by `[]interface{}`
+      -- would only repeat it
+      let cfg := cfgOfEnv .asIs { TDefects.repaired with staticSliceOf := true } e true .none
       match synth cfg [] n with
       | some t => .list [.atom "well", Ty.optToSexp t, Sexp.bool (staticNode cfg [] n)]
       | none =>
         -- which rule rejects it: the error the checker with the documented rule set reports
+        let cfg2 := cfgOfEnv .asIs { TDefects.repaired with staticSliceOf := true, retypeNonLiteral := true } e true .none
         match check cfg n with
-        | .error _ c _ => .list [.atom "ill", .atom c.name]
+        | .error _ c _ =>
+          -- `bad-argument` only because a non-literal arithmetic argument must not take the parameter's type?
+          if c == .badArgument && (synth cfg2 [] n).isSome then .list [.atom "ill", .atom "retyped-non-literal-argument"]
+          else .list [.atom "ill", .atom c.name]
         | _ => .list [.atom "ill", .atom "panic"]
     | _, _ => bad
   | _ => bad
